@@ -43,11 +43,12 @@ def spec_config(db, rb, slack):
     if db is None and rb is None:
         return (F(1, 100), F(1))
     if db is not None:
-        return (F(db), F(1))
+        # "difference_bound and ratio_bound_slack must be non-negative" (fairlearn c80f72a, finding F24)
+        return "err:negslack" if F(db) < 0 else (F(db), F(1))
     r = F(rb)
     if not (0 < r <= 1):
         return "err:ratio"
-    return (F(slack), r)
+    return "err:negslack" if F(slack) < 0 else (F(slack), r)
 
 
 def spec_event(moment, y, c):
@@ -328,9 +329,15 @@ class CHECK(Check):
                 if k < 0.35:
                     yield {"kind": "cfg", "moment": rng.choice(list(MOMENTS)), "db": rng.choice(EPS),
                            "rb": rng.choice(RATIOS), "slack": "0"}
+                elif k < 0.5:
+                    # the constructor branches one by one (lifted into Moments.mkConfig): difference bound alone incl. a
+                    # negative one, ratio bound with a negative / zero / positive slack, neither
+                    yield {"kind": "cfg", "moment": rng.choice(list(MOMENTS)),
+                           "db": rng.choice(EPS + ["-1/8", "-1", "-1/1024"]), "rb": None, "slack": rng.choice(["0", "-1/4", "1/8"])}
                 elif k < 0.7:
                     yield {"kind": "cfg", "moment": rng.choice(list(MOMENTS)), "db": None,
-                           "rb": rng.choice(["0", "-1/2", "3/2", "2", "1", "1/8"]), "slack": rng.choice(EPS)}
+                           "rb": rng.choice(["0", "-1/2", "3/2", "2", "1", "1/8", None]),
+                           "slack": rng.choice(EPS + ["-1/8", "-1/1024"])}
                 elif k < 0.85:
                     yield {"kind": "errcfg", "fp": rng.choice(["-1", "0", "1"]), "fn": rng.choice(["-1/2", "0", "2"]),
                            "shape": rng.choice(["ok", "ok", "missing_key", "extra_key"])}
